@@ -2,6 +2,7 @@ package main
 
 import (
 	"fmt"
+	"strings"
 
 	"gsx/eng"
 )
@@ -29,7 +30,7 @@ func init() {
 			for i, n := range cacheOps {
 				is = append(is, eng.Instance{Name: fmt.Sprintf("C01/Cache/step/%s", n), Pkg: "cache", Func: "VxH_C01_step", Args: []int64{int64(i)}})
 			}
-			return is
+			return withOf(is)
 		},
 	})
 }
@@ -100,4 +101,107 @@ func init() {
 			}
 		},
 	})
+}
+
+func cacheOpInstances(prefix, fn string, ops []string) []eng.Instance {
+	var is []eng.Instance
+	for _, n := range ops {
+		idx := -1
+		for i, c := range cacheOps {
+			if c == n {
+				idx = i
+			}
+		}
+		is = append(is, eng.Instance{Name: prefix + "/" + n, Pkg: "cache", Func: fn, Args: []int64{int64(idx)}, Cfg: eng.Config{DefaultUnwind: 9}})
+	}
+	return is
+}
+
+func init() {
+	register(&PropSpec{
+		ID:        "C12",
+		Technique: "differential bounded symbolic execution (go/ssa -> QF_UFBV): both twins executed in one formula on shared symbolic inputs, every observable compared",
+		Bounds:    map[string]interface{}{"pre_state_entries": 2, "keys": 3, "table_len": 1, "ops_per_step": 1},
+		Stubs:     commonStubs,
+		Outside:   []string{"constructor variants (covered by C09 harness)", "histories longer than one call from an arbitrary common pre-state"},
+		Quick: func() []eng.Instance {
+			return cacheOpInstances("C12/Cache~CacheOf/step", "VxH_C12_twin", cacheOps)
+		},
+	})
+	register(&PropSpec{
+		ID:        "C06",
+		Technique: "bounded symbolic execution (go/ssa -> QF_UFBV): ledger of evicted-callback invocations vs. the entries actually removed, callback installed at construction or swapped; concurrent pairs with symbolic schedule",
+		Bounds:    map[string]interface{}{"entries": 2, "callback_modes": 4},
+		Stubs:     commonStubs,
+		Quick: func() []eng.Instance {
+			return withOf(cacheOpInstances("C06/Cache/seq", "VxH_C06_seq", []string{"Delete", "GetAndDelete", "DeleteExpired"}))
+		},
+	})
+	register(&PropSpec{
+		ID:        "C07",
+		Technique: "bounded symbolic execution (go/ssa -> QF_UFBV): Range/Items visit sequence vs. abstract content from arbitrary valid table states; cache-level expiry filter with symbolic clock",
+		Stubs:     commonStubs,
+		Quick: func() []eng.Instance {
+			is := []eng.Instance{
+				{Name: "C07/Cache/Range", Pkg: "cache", Func: "VxH_C07_cacheRange", Args: []int64{0}, Cfg: eng.Config{DefaultUnwind: 6}},
+				{Name: "C07/Cache/Items", Pkg: "cache", Func: "VxH_C07_cacheRange", Args: []int64{1}, Cfg: eng.Config{DefaultUnwind: 6}},
+				{Name: "C07/Cache/RangeNil", Pkg: "cache", Func: "VxH_C07_cacheRange", Args: []int64{2}, Cfg: eng.Config{DefaultUnwind: 6}},
+			}
+			is = withOf(is)
+			is = append(is, mapStepInstances("C07/Map/Range", "VxH_Map_step", []shape{{1, 1, 1, 0}, {2, 1, 1, 1}, {1, 2, 1, 1}}, []int{9})...)
+			return is
+		},
+	})
+	register(&PropSpec{
+		ID:        "C13",
+		Technique: "bounded symbolic execution (go/ssa -> QF_UFBV): lock/flag freedom on every return path, unwinding assertions on every loop, re-entrant callbacks; deadlock query over symbolic schedules",
+		Stubs:     commonStubs,
+		Quick: func() []eng.Instance {
+			var is []eng.Instance
+			for i, n := range []string{"Delete", "GetAndDelete", "DeleteExpired", "Range"} {
+				is = append(is, eng.Instance{Name: "C13/Cache/reenter/" + n, Pkg: "cache", Func: "VxH_C13_reenter", Args: []int64{int64(i)}, Cfg: eng.Config{DefaultUnwind: 9}})
+			}
+			return withOf(is)
+		},
+	})
+}
+
+func init() {
+	register(&PropSpec{
+		ID:        "C09",
+		Technique: "bounded symbolic execution (go/ssa -> QF_UFBV) of the real constructors, option closures, config normalisation and every storing/reading method with all int64 TTL / default / clock values symbolic",
+		Bounds:    map[string]interface{}{"calls": "constructor + optional SetDefaultExpiration + optional pre-Set + 1 method + reads", "clock": "[0,2^61) then any later instant < 2^62", "MinCapacity": "default; bound: the 32-root-bucket table the constructor asks for is built with 1 root bucket"},
+		Stubs:     commonStubs,
+		Outside:   []string{"symbolic MinCapacity (floating-point size arithmetic, see C11 constructors)", "instants beyond the int64 UnixNano range"},
+		Quick: func() []eng.Instance {
+			var is []eng.Instance
+			vn := []string{"New+opts", "NewDefault", "New()", "New+opts-reordered"}
+			mn := []string{"Set", "GetAndSet", "Compute", "GetAndRefresh", "GetOrSet", "GetOrCompute", "SetDefault|SetForever"}
+			for v := range vn {
+				for m := range mn {
+					if v >= 2 && m >= 2 {
+						continue
+					}
+					is = append(is, eng.Instance{Name: fmt.Sprintf("C09/Cache/%s/%s", vn[v], mn[m]), Pkg: "cache", Func: "VxH_C09_ctor", Args: []int64{int64(v), int64(m)}, Cfg: eng.Config{DefaultUnwind: 6, SmallTables: 1}})
+				}
+			}
+			return withOf(is)
+		},
+	})
+}
+
+
+// withOf adds, for every package-cache instance, its generated CacheOf[string, interface{}] twin.
+func withOf(is []eng.Instance) []eng.Instance {
+	out := append([]eng.Instance(nil), is...)
+	for _, in := range is {
+		if in.Pkg != "cache" {
+			continue
+		}
+		t := in
+		t.Func = in.Func + "Of"
+		t.Name = strings.Replace(in.Name, "/Cache/", "/CacheOf/", 1)
+		out = append(out, t)
+	}
+	return out
 }
